@@ -372,9 +372,18 @@ def build_contract_job(unit, fs):
         else:
             decl_lines.append('  %s %s;' % (ty, nm))
     for pname, q in fs.get('mirror', {}).items():
-        for (ty, fld) in cxx2c.struct_fields(unit.index, unit.cfg, q):
+        if isinstance(q, (list, tuple)):
+            flds, cast = list(q), None
+        else:
+            flds, cast = cxx2c.struct_fields(unit.index, unit.cfg, q), unit.cfg.types.base(q)
+        for (ty, fld) in flds:
             if ty not in NONDET: continue
             g = 'verif_in_%s_%s' % (re.sub(r'[^A-Za-z0-9]+', '_', pname).strip('_'), fld)
+            if cast is None:
+                mir_globals.append('%s %s;' % (ty, g))
+                mir_assign.append('  %s = %s;' % (g, NONDET[ty]))
+                mir_requires.append('(%s) == 0 || (%s)->%s == %s' % (pname, pname, fld, g))
+                continue
             mir_globals.append('%s %s;' % (ty, g))
             mir_assign.append('  %s = %s;' % (g, NONDET[ty]))
             if ty in ('double', 'float'):
@@ -607,9 +616,12 @@ def main(argv):
     import replay as replay_mod
     vio_files = []
     seenjobs = {}
+    per_job = {}
     for vi, (j, p) in enumerate(all_viol):
-        # traces and native replays for the first violations only; the rest are recorded without a trace
-        path = replay_mod.write_violation(unit, j, p, results[j.id], trace_of if vi < 6 else (lambda job, name=None: 'trace skipped: more than 6 violations in this run'))
+        # traces and native replays: at most 2 per job and 24 per run; the rest are recorded without a trace
+        per_job[j.id] = per_job.get(j.id, 0) + 1
+        with_trace = per_job[j.id] <= 2 and sum(1 for v in per_job.values() for _ in range(min(v, 2))) <= 24
+        path = replay_mod.write_violation(unit, j, p, results[j.id], trace_of if with_trace else (lambda job, name=None: 'trace skipped: more than 2 violations in this job or 24 in this run'))
         vio_files.append(path)
         conf = replay_mod.LAST_STATUS.get(path, 'no-failing-input-found')
         suffix = '' if conf == 'confirmed' else ' no-failing-input-found'
